@@ -75,7 +75,7 @@ def run(spec):
     fx = ext['FX']
     xr = ext['XR']
     curs = [cz.Currency for cz in mod.CurrencyZoneList if cz.Currency != 'NUMERAIRE']
-    has_gold = any(c['gov'] is not None and c['gov']['kind'] == 'gold' for z in spec['zones'] for c in z['countries'])
+    has_gold = any(c['gov'] is not None and c['gov']['kind'] in ('gold', 'gold_cb') for z in spec['zones'] for c in z['countries'])
     nontrivial = False
     for k in range(1, K + 1):
         v = sol.values[k]
